@@ -29,6 +29,9 @@ class Timeout(Exception):
     pass
 
 
+_TIMEOUTS = 0
+
+
 def _on_alarm(signum, frame):
     raise Timeout()
 
@@ -36,11 +39,15 @@ def _on_alarm(signum, frame):
 def guarded(fn, *a, **kw):
     """Run fn under the per-case watchdog.  Returns ('ok', value) | ('exc', name, msg)
     | ('timeout',) | ('recursion',)."""
+    global _TIMEOUTS
     signal.signal(signal.SIGALRM, _on_alarm)
-    signal.setitimer(signal.ITIMER_REAL, 2.0)
+    # 2 s per call; once a process has seen 8 calls run out of time (the run is failing already) the budget drops
+    # to 0.3 s, so that a change that makes a function loop forever is reported in minutes, not hours
+    signal.setitimer(signal.ITIMER_REAL, 2.0 if _TIMEOUTS < 8 else 0.3)
     try:
         return ("ok", fn(*a, **kw))
     except Timeout:
+        _TIMEOUTS += 1
         return ("timeout",)
     except RecursionError:
         return ("recursion",)
